@@ -198,7 +198,7 @@ def run(ctx):
     wroot = ctx.scratch / "w"
     wroot.mkdir()
     tmo = 40 if ctx.thorough else 15
-    base = {f: render(rich_doc(f, ctx.seed), f) for f in formats}
+    base = {f: render(L.enrich(rich_doc(f, ctx.seed)), f) for f in formats}      # 3 x 2 table: rows != columns
     jobs, meta = [], {}
 
     def add(job, **m):
@@ -218,7 +218,7 @@ def run(ctx):
         f = c["fmt"]
         sp = L.spell_path(c["path"], random.Random(f"{ctx.seed}:c:{i}"), own_ext=f)
         props = {k: L.spell_val(c["val"], k) for k in L.FIELDS}
-        doc = rich_doc(f, ctx.seed)
+        doc = L.enrich(rich_doc(f, ctx.seed))
         doc["props"] = props
         add({"id": f"case:{i}", "fmt": f, "doc": doc, "sp": sp, "props": props}, kind="case", abstract=c, fmt=f)
     for i, u in enumerate(units):
